@@ -156,7 +156,11 @@ def module_case(c):
         if it < c.get("updates", 0):
             with torch.no_grad():
                 if not c["frozen"]:
-                    q.weight.add_(torch.randn(q.weight.shape, generator=gen).to(dtype) * 0.5)
+                    delta = torch.randn(q.weight.shape, generator=gen).to(dtype) * 0.5
+                    if c.get("update_via") == "data":
+                        q.weight.data.add_(delta)  # hand-written SGD / clipping / EMA: does not bump the version counter
+                    else:
+                        q.weight.add_(delta)
     r["steps"] = steps
     return r
 
